@@ -100,6 +100,7 @@ package vmm
 //@   ensures frame: forall(a, uintptr, !old(mapTouches(uintptr(page) << 12, firstMissing(uintptr(page) << 12), a)) ==> mem8(a) == old(mem8(a)))
 //@   ensures present: !zeroGuard(frame, flags) && !old(hugeOnPath(uintptr(page) << 12)) && old(firstMissing(uintptr(page) << 12)) == 3 ==> err == nil
 //@   ensures leaf: err == nil ==> mem64(pte3(uintptr(page) << 12)) == (uint64(frame) << 12) | uint64(flags)
+//@   at in Map$1 call flushTLBEntryFn 1: assert stored: mem64(pte3(uintptr(page) << 12)) == (uint64(frame) << 12) | uint64(flags)
 //@   ensures path: err == nil && pteIdx(uintptr(page) << 12, 39) != 511 ==> mem64(pte0(uintptr(page) << 12)) & 0x81 == 1 && mem64(pte1(uintptr(page) << 12)) & 0x81 == 1 && mem64(pte2(uintptr(page) << 12)) & 0x81 == 1
 //@   ensures flush: err == nil ==> cpu.flushes == old(cpu.flushes) + 1 && cpu.flushLog[old(cpu.flushes)] == uintptr(page) << 12
 //@   ensures noflush: err != nil ==> cpu.flushes == old(cpu.flushes)
@@ -124,6 +125,7 @@ package vmm
 //@   ensures ok: !old(hugeFirst(uintptr(page) << 12)) && old(firstMissing(uintptr(page) << 12)) == 3 ==> err == nil && mem64(pte3(uintptr(page) << 12)) == old(mem64(pte3(uintptr(page) << 12))) &^ 1 && cpu.flushes == old(cpu.flushes) + 1 && cpu.flushLog[old(cpu.flushes)] == uintptr(page) << 12
 //@   ensures frame: forall(a, uintptr, a - pte3(uintptr(page) << 12) >= 8 ==> mem8(a) == old(mem8(a)))
 //@   ensures unmapped: err == nil ==> !mapped(uintptr(page) << 12)
+//@   at in Unmap$1 call flushTLBEntryFn 1: assert cleared: mem64(pte3(uintptr(page) << 12)) == old(mem64(pte3(uintptr(page) << 12))) &^ 1
 //@   ensures others: pteIdx(uintptr(page) << 12, 39) != 511 ==> forall(b, uintptr, pteIdx(b, 39) != 511 && (b >> 12) & 0xfffffffff != uintptr(page) & 0xfffffffff ==> (mapped(b) <==> old(mapped(b))) && (mapped(b) ==> mem64(pte3(b)) == old(mem64(pte3(b)))))
 
 // pteForAddress / Translate: the software's own read of the tables
